@@ -118,11 +118,12 @@ impl E2Run for Start {
                     let request = if with_capture {
                         None
                     } else if storm {
-                        let s = status_counter;
+                        // a quarter of the requesters use the plain call, which asks for the normal status
+                        let s = if sim::chance(1, 4) { 0 } else { status_counter };
                         status_counter += 1;
                         Some((storm_time, s))
                     } else if sim::chance(1, 3) {
-                        let s = status_counter;
+                        let s = if sim::chance(1, 4) { 0 } else { status_counter };
                         status_counter += 1;
                         let t = match sim::choose(4) {
                             0 => 0,
@@ -161,7 +162,11 @@ impl E2Run for Start {
                                     status,
                                 });
                                 sim::note_trace(8, status as u64, event);
-                                ctx.shutdown.shut_down_with_status(ExitStatus::Status(status));
+                                if status == 0 {
+                                    ctx.shutdown.shut_down();
+                                } else {
+                                    ctx.shutdown.shut_down_with_status(ExitStatus::Status(status));
+                                }
                             }
                             if hang {
                                 // holds its Shutdown handle for ever
@@ -239,6 +244,11 @@ impl E2Run for Start {
         if reqs.len() > 1 {
             out.count("probe_competing_shutdown_requests");
         }
+        // status code 0 in the request log stands for the plain shut_down() call
+        let asked = |code: u32| if code == 0 { ExitStatus::Exited } else { ExitStatus::Status(code) };
+        if reqs.iter().any(|r| r.status == 0) && reqs.iter().any(|r| r.status != 0) {
+            out.count("probe_plain_and_status_requests_compete");
+        }
         let expected: Vec<ExitStatus> = if plan.capture_expected {
             // initialisation may take up to 3 s of simulated time
             if timeout.map(|t| t <= 3100).unwrap_or(false) {
@@ -248,10 +258,10 @@ impl E2Run for Start {
             }
         } else {
             match (&first, timeout) {
-                (Some(f), Some(t)) if f.time_ms < t => vec![ExitStatus::Status(f.status)],
-                (Some(f), Some(t)) if f.time_ms == t => vec![ExitStatus::Status(f.status), ExitStatus::TimedOut],
+                (Some(f), Some(t)) if f.time_ms < t => vec![asked(f.status)],
+                (Some(f), Some(t)) if f.time_ms == t => vec![asked(f.status), ExitStatus::TimedOut],
                 (Some(_), Some(_)) => vec![ExitStatus::TimedOut],
-                (Some(f), None) => vec![ExitStatus::Status(f.status)],
+                (Some(f), None) => vec![asked(f.status)],
                 // nobody asks: the timed-out status, or the normal one when
                 // every holder of a shutdown handle has gone away before
                 (None, Some(_)) => vec![ExitStatus::TimedOut, ExitStatus::Exited],
@@ -261,7 +271,7 @@ impl E2Run for Start {
             }
         };
         if !expected.contains(&status) {
-            let suffix = if first.is_some() && matches!(status, ExitStatus::Status(_)) {
+            let suffix = if first.is_some() && (matches!(status, ExitStatus::Status(_)) || (status == ExitStatus::Exited && reqs.iter().any(|r| r.status == 0))) {
                 if same_instant > 16 {
                     "not-the-first-request|more-than-16-at-once"
                 } else {
